@@ -210,6 +210,18 @@ func vkSeedWorld(w *vkSrvWorld) {
 		m.Extra = []dns.RR{opt}
 		return m
 	}
+	sc["opt2up.t."] = func(req *dns.Msg) *dns.Msg { // as optup.t., but the upstream's options sit in a FIRST OPT, an empty second OPT follows
+		m := sc["optup.t."](req)
+		if len(m.Extra) == 1 {
+			second := &dns.OPT{Hdr: dns.RR_Header{Name: ".", Rrtype: dns.TypeOPT}}
+			second.SetUDPSize(1232)
+			m.Extra = append(m.Extra, second)
+		}
+		for _, rr := range m.Answer {
+			rr.Header().Name = "opt2up.t."
+		}
+		return m
+	}
 	sc["sf.t."] = func(req *dns.Msg) *dns.Msg {
 		m := vkReplyTo(req)
 		m.Rcode = dns.RcodeServerFailure
@@ -233,7 +245,7 @@ func vkSeedWorld(w *vkSrvWorld) {
 	w.serve(vkPathDecoded, "tcp", client, p.build())
 }
 
-var vkSrvTargets = []string{"hit.t.", "cn.t.", "cnx.t.", "cnns.t.", "cnad.t.", "tgt.t.", "cnsig.t.", "cnu.t.", "sig.t.", "nx.t.", "x.nx.t.", "nxa.t.", "nd.t.", "ede.t.", "big.t.", "mid.t.", "xtra.t.", "optup.t.", "sf.t.", "ref.t.", "miss.t.", "hosts.t.", "1.10.in-addr.arpa.", "."}
+var vkSrvTargets = []string{"hit.t.", "cn.t.", "cnx.t.", "cnns.t.", "cnad.t.", "tgt.t.", "cnsig.t.", "cnu.t.", "sig.t.", "nx.t.", "x.nx.t.", "nxa.t.", "nd.t.", "ede.t.", "big.t.", "mid.t.", "xtra.t.", "optup.t.", "opt2up.t.", "sf.t.", "ref.t.", "miss.t.", "hosts.t.", "1.10.in-addr.arpa.", "."}
 
 func vkSrvConfigs(thorough bool) []vkSrvCfg {
 	cfgs := []vkSrvCfg{
